@@ -256,7 +256,8 @@ func robXSweepPoint(fd api.FunctionDataCmdInterface, remoteWrite, persist, fp, f
 			if len(txt) > 200 {
 				txt = txt[:200]
 			}
-			key, detail = "panic:"+site, txt+" @ "+strings.Join(frames, " < ")
+			// a key of its own: the witness of the grid (through the production entry point) keeps its replay
+			key, detail = "panic:"+site+":merge-entry", txt+" @ "+strings.Join(frames, " < ")
 		}
 	}()
 	// a zero value of the function's data type: DataCopyAny returns a (nil) *T
